@@ -86,7 +86,7 @@ func preludeOf(env *ty.Env) string {
 		if d.Under.K == ty.Struct {
 			flags += "m"
 			for _, f := range d.Under.Fields {
-				if strings.ToLower(f.Name[0:1]) == f.Name[0:1] {
+				if !token.IsExported(f.Name) {
 					flags += "1"
 				} else {
 					flags += "0"
